@@ -15,7 +15,7 @@ RULE = ('(a) ALL type hints (lo, hi) with -9 <= lo <= hi <= 9 plus a sparse '
         'sign class, a Boolean and a rigid constant; 20-formula menu: '
         'unprime(prime(u)) = u, table(prime(u)) = renamed table, '
         'replace_with_primed/unprimed for EVERY subset of variables, support '
-        'classification vs. semantic dependence. non-trivial = hint does not '
+        'classification vs. semantic dependence; an identifier declared first as a constant and later as a variable, with and without queries in between. non-trivial = hint does not '
         'fill its bitfield / predicate depends on a flexible variable; '
         'distinct = hint / (automaton, predicate, back end)')
 ASSUMPTIONS = ['dd trusted', 'read-out decodes bits independently']
@@ -40,10 +40,17 @@ def shards(tier, seed):
             for i in range(0, len(PMENU[name]), 4):
                 out.append(dict(kind='prime', decl=name, backend=be,
                                 start=i))
+        out.append(dict(kind='staged', backend=be))
     return out
 
 
 def cases(shard):
+    if shard['kind'] == 'staged':
+        for hint in ('bool', [0, 2], [-3, 2], [-3, -1]):
+            for pre_query in (True, False):
+                yield dict(kind='staged', backend=shard['backend'],
+                           hint=hint, pre_query=pre_query)
+        return
     if shard['kind'] == 'hints':
         for h in shard['items']:
             yield dict(kind='hint', hint=list(h))
@@ -53,7 +60,64 @@ def cases(shard):
                        backend=shard['backend'], pred=e)
 
 
+def run_staged(case, acc):
+    """An identifier first declared as a constant, later as a variable
+    (same hint): classification and priming must follow the declarations
+    in force, whatever was asked before."""
+    import omega.symbolic.temporal as trl
+    import omega.symbolic.prime as prm
+    aut = trl.Automaton()
+    if case['backend'] == 'autoref':
+        import dd.autoref
+        aut.bdd = dd.autoref.BDD()
+    h = case['hint'] if case['hint'] == 'bool' else tuple(case['hint'])
+    aut.declare_variables(y=(0, 2))
+    aut.declare_constants(n=h)
+    f = 'n /\\ (y = 1)' if h == 'bool' else f'(n = {h[0]}) /\\ (y = 1)'
+    u = aut.add_expr(f)
+    n = 0
+
+    def bad(kind, **detail):
+        acc.violation(kind, case, detail=detail)
+    if case['pre_query']:
+        n += 3
+        if prm.rigid_support(u, aut) != {'n'} or \
+                prm.flexible_support(u, aut) != {'y'}:
+            bad('support_classification_wrong', stage='constant')
+        pu = prm.prime(u, aut)
+        if aut.support(pu) != {'n', "y'"}:
+            bad('prime_table_wrong', stage='constant',
+                support=sorted(aut.support(pu)))
+    # now the same identifier becomes a flexible variable
+    aut.declare_variables(n=h)
+    n += 5
+    if prm.rigid_support(u, aut) != set() or \
+            prm.flexible_support(u, aut) != {'n', 'y'}:
+        bad('support_classification_wrong', stage='after redeclaration',
+            rigid=sorted(prm.rigid_support(u, aut)),
+            flexible=sorted(prm.flexible_support(u, aut)))
+    if prm.vars_in_support(u, aut) != {'n', 'y'}:
+        bad('vars_in_support_wrong', stage='after redeclaration')
+    pu = prm.prime(u, aut)
+    if aut.support(pu) != {"n'", "y'"}:
+        bad('prime_table_wrong', stage='after redeclaration',
+            support=sorted(aut.support(pu)))
+    else:
+        t0 = ro.Reader(aut, ['n', 'y']).table(u)
+        t1 = ro.Reader(aut, ["n'", "y'"]).table(pu)
+        if t0 != t1:
+            bad('prime_table_wrong', stage='after redeclaration')
+        if prm.unprime(pu, aut) != u:
+            bad('unprime_of_prime_differs', stage='after redeclaration')
+        if not prm.is_primed_state_predicate(pu, aut):
+            bad('is_primed_state_predicate_wrong',
+                stage='after redeclaration')
+    acc.ev(dict(c=case), nontrivial=True, n=n)
+
+
 def run_case(case, acc):
+    if case['kind'] == 'staged':
+        return run_staged(case, acc)
     if case['kind'] == 'hint':
         run_hint(case, acc)
     else:
